@@ -109,6 +109,7 @@ class TextObject:
 
         if (
             self.type == TextObjectType.EXCLUSIVE
+            and start < end
             and doc.translate_index_to_position(end + doc.cursor_position)[1] == 0
         ):
             # If the motion is exclusive and the end of motion is on the first
@@ -147,6 +148,10 @@ class TextObject:
         Turn text object into `ClipboardData` instance.
         """
         from_, to = self.operator_range(buffer.document)
+
+        # Nothing to cut when the motion failed or didn't span anything.
+        if self.type != TextObjectType.LINEWISE and from_ >= to:
+            return buffer.document, ClipboardData("", self.selection_type)
 
         from_ += buffer.cursor_position
         to += buffer.cursor_position
@@ -1201,7 +1206,8 @@ def load_vi_bindings() -> KeyBindingsBase:
         c = event.key_sequence[1].data
         if c in vi_register_names:
             _, clipboard_data = text_object.cut(event.current_buffer)
-            event.app.vi_state.named_registers[c] = clipboard_data
+            if clipboard_data.text:
+                event.app.vi_state.named_registers[c] = clipboard_data
 
     @operator(">")
     def _indent_text_object(event: E, text_object: TextObject) -> None:
